@@ -18,7 +18,8 @@ EXPLANATION = ("Buffered byte streams: conservation of bytes by value flow - eve
                "window of len(delimiter)-1 bytes; the size limit is tested after the search. Text streams: one incremental decoder and one "
                "incremental encoder per stream, created once, fed every chunk exactly once without final=True, only non-empty decodes are "
                "returned, the encoded bytes are sent whole, both halves of TextStream share the encoding."
-               " All classes of streams/text.py declare the same default encoding and error policy.")
+               " All classes of streams/text.py declare the same default encoding and error policy."
+               " The codec is looked up by the constructor's own `encoding` argument; the buffered wrapper keeps exactly the stream it was given.")
 NOT_DECIDED = ("Codec behaviour (trusted), values of the arithmetic beyond the linear obligations, the byte order between feed_data() called "
                "while receive() is suspended and the chunk it is waiting for (ambiguous in the statement).")
 
